@@ -160,6 +160,11 @@ class Driver:
             r = _txt(self.resolve(op['rule']))
             ser = c.bus_call('AddMatch' if k == 'addmatch' else 'RemoveMatch', 's', (r,), flags=fl)
             return {'k': k, 'ser': ser, 'fl': fl, 'rule': B(r), '_': str(r)}
+        if k == 'monitor':
+            rules = [_txt(self.resolve(r)) for r in op.get('rules', [])]
+            flags = op.get('flags', 0)
+            ser = c.call(BUSNAME, BUSPATH, 'org.freedesktop.DBus.Monitoring', 'BecomeMonitor', 'asu', (rules, flags), flags=fl)
+            return {'k': 'monitor', 'ser': ser, 'fl': fl, 'rules': [B(r) for r in rules], 'flags': flags, '_': str(rules)}
         if k == 'send':
             return self.write_send(c, op)
         if k == 'big':
@@ -242,7 +247,7 @@ class Driver:
                     and m.fields.get(F_SENDER) == BUSNAME:
                 return True
 
-    def drain(self, s, obs, quiet=0.15):
+    def drain(self, s, obs, quiet=0.25):
         """monitor slots cannot ping: read until the line has been quiet for `quiet` seconds"""
         st = self.slots[s]
         while True:
@@ -261,6 +266,7 @@ class Driver:
         p1 = {}
         closing = []
         hello_idx = {}
+        became = {}
         eof_early = []
         self.stall = []
         t_start = time.monotonic()
@@ -280,11 +286,18 @@ class Driver:
                 r = self.write_op(s, op)
                 if r is None:
                     continue
+                if r['k'] == 'monitor':
+                    rec_ops[s].append(r)
+                    became[s] = r['ser']
+                    break
                 if r['k'] == 'hello':
                     hello_idx.setdefault(s, []).append(len(rec_ops[s]))
                 rec_ops[s].append(r)
                 wrote = wrote or r['k'] not in ('connect', 'connect_failed')
             if st.closed or st.eof or st.monitor:
+                continue
+            if s in became:
+                p1[s] = became[s]
                 continue
             if s in closing:
                 ser = st.c.call(BUSNAME, BUSPATH, 'org.freedesktop.DBus.Peer', 'Ping')
@@ -298,6 +311,8 @@ class Driver:
         for s in order:
             if s in p1:
                 ok = self.read_until(s, p1[s], obs[s])
+                if s in became and ok and obs[s] and obs[s][-1]['ty'] == 2:
+                    self.slots[s].monitor = True
                 if s in closing:
                     st = self.slots[s]
                     if not ok and st.eof:
